@@ -506,7 +506,13 @@ def _v_bridge_labels_compared_bare(tree):
     M.replace_stmt(g, lambda s: isinstance(s, ast.Try), M.stmts("edge = (v, w) if v < w else (w, v)"))
 
 
+def _v_dispatch_dedups_edges(tree):
+    g = M.find_func(tree, "with_rust_backend.wrapper")
+    M.insert(g, "selected = get_backend(backend)", "if 'edges' in kwargs:\n    kwargs['edges'] = list(dict.fromkeys(map(tuple, kwargs['edges'])))")
+
+
 VARIANTS = [
+    M.Variant("the back-end dispatch wrapper drops repeated edges for every decorated routine: pagerank_edges loses multi-links (seed C15-AA)", "solvor/rust/__init__.py", _v_dispatch_dedups_edges, "C15-G7"),
     M.Variant("bridges orders the two labels of a bridge with a bare `<`: TypeError for None next to an int (original defect, ledger row 81)", AR, _v_bridge_labels_compared_bare, "C15-O5"),
     M.Variant("bridges stops scanning a neighbour list once every node is numbered (seed C15-T)", AR, _v_bridges_scan_stops_early, "C15-O5"),
     M.Variant("pagerank binds max_diff only inside the sweep loop: max_iter=0 raises where the Rust kernel answers MAX_ITER (original defect, ledger row 63)", PR, _v_pagerank_max_diff_unbound, "C15-G1"),
